@@ -147,8 +147,33 @@ func buildPoolUniverse(reg univ.Regime) *poolUniverse {
 	}
 	x1, x2 := one(tm1, tm2)
 	m2 := u.Add(m1, 0, x1, x2, "m2")
-	m3 := u.Add(m2, 0, nil, nil, "m3")
-	u.Add(m3, 0, nil, nil, "m4")
+	// m3 confirms the PARENT of menu set "chain" but not its child; m4 confirms the grandparent of "chain3"
+	rebuilt := func(L *ledger.Ledger, a univ.Actor, id types.SiacoinOutputID, to types.Address, amt uint32) []types.V2Transaction {
+		for _, e := range univ.OwnedSC(L, a.Addr) {
+			if e.ID == id {
+				return []types.V2Transaction{univ.V2Spend(L.State, a, e, to, univ.SC(amt), univ.SC(1))}
+			}
+		}
+		panic("pool universe: output to rebuild not found")
+	}
+	var z1 []types.Transaction
+	var z2 []types.V2Transaction
+	if v2 {
+		z2 = rebuilt(u.Nodes[m2].L, as[2], a2[0].ID, as[2].Addr, 9)
+		if z2[0].ID() != p2.ID() {
+			panic("pool universe: rebuilt parent differs")
+		}
+	} else {
+		z1 = []types.Transaction{p1}
+	}
+	m3 := u.Add(m2, 0, z1, z2, "m3")
+	z1, z2 = nil, nil
+	if v2 {
+		z2 = rebuilt(u.Nodes[m3].L, as[3], a3[2].ID, as[3].Addr, 9)
+	} else {
+		z1 = []types.Transaction{g1}
+	}
+	u.Add(m3, 0, z1, z2, "m4")
 	b2 := u.Add(m1, 1, nil, nil, "b2")
 	// block b3 confirms "a" (rebuilt with proofs valid at b2)
 	Lb := u.Nodes[b2].L
@@ -495,15 +520,19 @@ func poolApply(w0 bfs.World, o bfs.Op, check bool) (v *bfs.Violation) {
 					w.accepted = append(w.accepted, acceptedTxn{id: t.ID(), v1: &t, alive: true})
 				}
 			}
+			remaining := map[types.TransactionID]bool{}
+			for _, id := range setIDs {
+				remaining[id] = true
+			}
 			for _, t := range s.V2 {
 				t := t.DeepCopy()
-				if !inPool[t.ID().String()] {
+				if !inPool[t.ID().String()] && remaining[t.ID()] {
 					w.accepted = append(w.accepted, acceptedTxn{id: t.ID(), v2: &t, alive: true})
 				}
 			}
 		}
 		if !check {
-			return nil
+			break
 		}
 		if w.prop == "C14" {
 			after := map[string]bool{}
@@ -661,7 +690,7 @@ func poolApply(w0 bfs.World, o bfs.Op, check bool) (v *bfs.Violation) {
 func poolOps(pu *poolUniverse, withMine bool) []bfs.Op {
 	var ops []bfs.Op
 	for k := 1; k < len(pu.u.Nodes); k++ {
-		if l := pu.u.Nodes[k].Label; l == "trunk" || l == "m1" || l == "m2" || l == "m4" || l == "b3" || l == "b5" || l == "b2" {
+		if l := pu.u.Nodes[k].Label; l == "trunk" || l == "m1" || l == "m2" || l == "m3" || l == "m4" || l == "b3" || l == "b5" || l == "b2" {
 			ops = append(ops, uptoOp{k})
 		}
 	}
@@ -715,7 +744,7 @@ func c05() {
 		depth = 5
 	}
 	poolExplore("C05", depth, true, nil)
-	run.Rule = "pool universes (main m1..m4 with a conflicting spend in m2; branch b2..b5 confirming menu transaction 'a' in b3) in 3 regimes; ops: submit path up to m1/m2/m4/b2/b3/b5, add each of the 10-11 menu sets (independent, conflicting, parent+child, child only, partly known, conflict at position 1, invalid at position 1, stale basis), mine (real coreutils.MineBlock, then AddBlocks); BFS by replay (the pool cannot be cloned) with state key = store + tip + private pool state; distinct = distinct states"
+	run.Rule = "pool universes (main m1..m4 with a conflicting spend in m2, the parent of menu set 'chain' confirmed without its child in m3 and the grandparent of 'chain3' in m4; branch b2..b5 confirming menu transaction 'a' in b3) in 3 regimes; ops: submit path up to m1/m2/m3/m4/b2/b3/b5, add each of the 10-11 menu sets (independent, conflicting, parent+child, child only, partly known, conflict at position 1, invalid at position 1, stale basis), mine (real coreutils.MineBlock, then AddBlocks); BFS by replay (the pool cannot be cloned) with state key = store + tip + private pool state; distinct = distinct states"
 	run.Explanation = fmt.Sprintf("depth bound %d. After every transition: every prefix of PoolTransactions()+V2PoolTransactions() validates on a fresh MidState of the reference tip with reference supplements, v2 proofs equal the reference ledger's; mined blocks are valid per the reference, accepted by the node and by a fresh linear node; a reference lower-bound pool (accepted, not confirmed, no input missing on any intermediate tip of any reorg, still valid in acceptance order) is contained in the reported pool.", depth)
 	run.Assumptions = []string{"fee-based eviction of a full pool is not explored (needs >= 2*10^7 weight units)", "contract revision/resolution sets are exercised by the C13 check, not here"}
 }
